@@ -334,6 +334,12 @@ def run(case, st):
                 elif isinstance(want, list) and want and isinstance(want[0], str):
                     want = [interpolate(x, final) for x in want]
                 got = cfg[sec][key]
+                # the other way to read an option back (the renderers use it): it gives the same value
+                got2 = cfg[sec].get(key, '<absent>')
+                st.counters['read_backs_through_get'] += 1
+                if got2 != got:
+                    bad.append((sec, key, kind, 'section.get(%r) gives %r, section[%r] gives %r' % (key, got2, key, got)))
+                    continue
             except common.CaseTimeout:
                 raise
             except Exception as e:
